@@ -266,8 +266,11 @@ C("_handle_positive_ack_procedures", arg_types=SELF, props=("C04",), result=None
           _pa(n.self).ack_counter == _pa(o.self).ack_counter + 1, _fin_pdu_is_live(n), len(emitted(n)) == 1,
           no_fault(n), len(timer_resets(n)) == 1, step_is(n.self, STEP.WAITING_FOR_FINISHED_ACK),
           len(inds(n)) == 0)), ("C04", "C15")),
-      Clause("C04.fin.fault_exactly_at_limit", lambda o, n, r: Implies_(And_(_pa_expired(o), _pa_limit_hit(o)),
-          declared(n, CC.POSITIVE_ACK_LIMIT_REACHED, "notice_of_cancellation_cb")), ("C04", "C14")),
+      Clause("C04.fin.fault_exactly_at_limit", lambda o, n, r: Implies_(And_(_pa_expired(o), _pa_limit_hit(o)), And_(
+          Implies_(ne(o.self._params.completion_disposition, CANCELED),
+                   declared(n, CC.POSITIVE_ACK_LIMIT_REACHED, "notice_of_cancellation_cb")),
+          Implies_(eq(o.self._params.completion_disposition, CANCELED),
+                   declared(n, CC.POSITIVE_ACK_LIMIT_REACHED, "abandoned_cb")))), ("C04", "C14")),
       Clause("C04.fin.no_fault_before_limit", lambda o, n, r: Implies_(Not_(And_(_pa_expired(o), _pa_limit_hit(o))),
           no_fault(n)), ("C04",)),
       Clause("C04.fin.cancel_on_first_limit", lambda o, n, r: Implies_(And_(
